@@ -114,7 +114,9 @@ def leU8 (b : RBuf) : Except Err (Nat × RBuf) :=
     pure (x, b')
   else .error .truncated
 
-/-- `parse_as_array::<N>(f)` -/
+/-- `parse_as_array::<N>(f)`. The `usize` addition `self.read_off + N` is *not* a checked operation of the model (no
+wrap-around is represented): under the invariant `off + left ≤ data.length` and the guard `left ≥ N` it is bounded by the
+length of a real slice (`≤ isize::MAX`), so it cannot overflow. -/
 def parseArr (b : RBuf) (n : Nat) : Except Err (List Nat × RBuf) :=
   if b.left ≥ n then do
     let a ← slice b.data b.off (b.off + n)
